@@ -219,6 +219,17 @@ theorem C06_zero_approval {pol : Policy} {i o : Nat} (hp : pol.feePct < 100)
               · omega
             · simp [h6] at hb
 
+/-- **The allowlist branch of the approver.**  The invoice of an allowlisted payee is an approval whatever the approver
+    says (`handle_proposed_invoice` adds it without asking): it is registered with its amount and is then bounded by
+    `C06_step` / `C06_partial` like any approval.  A keysend to an allowlisted payee is NOT approved by the allowlist
+    (`handle_proposed_keysend` does not look at it): with a declining approver nothing is registered. -/
+theorem C06_allowlisted_payee (h : Hash) (inv : Invoice) (now : Nat) (n : Node) :
+    proposalOp true true false h inv now = .approve h inv now ∧
+    proposalOp false true false h inv now = .decline h inv ∧
+    proposalOp true false false h inv now = .decline h inv ∧
+    (n.exec (.decline h inv)).map (·.1.invoices h) = some (n.invoices h) := by
+  refine ⟨rfl, rfl, rfl, rfl⟩
+
 /-- **Small parts cannot escape the accounting.**  A commitment request that LISTS an HTLC below the trim threshold of
     its direction (`policy-commitment-outputs-trimmed` of `validate_commitment_tx`, which runs before
     `validate_payments`) is refused and changes nothing, on both kinds of commitment. -/
